@@ -154,6 +154,8 @@ func argClass(c callT) string {
 		return "limits_left_out"
 	case c.Tok == "str_over" || c.Tok == "list_over":
 		return "out_of_range"
+	case c.Tok == "list_mixed" || c.Tok == "list_bad" || c.Tok == "map_list":
+		return "list_items"
 	}
 	return c.Tok
 }
@@ -221,6 +223,9 @@ func runHist(c caseT) (r resT) {
 		cls := argClass(c)
 		if in.kind == "objnest" && c.Op == "unser" && !strings.HasPrefix(c.Tok, "lim_") {
 			cls = "limits_left_out"
+		}
+		if in.kind == "objdep" {
+			cls = "any_argument"
 		}
 		if (in.kind == "objmap" || in.kind == "objstruct") && c.Op == "unser" && c.Tok != "bad" {
 			if m := c.m(); m.N < 0 || (in.kind == "objstruct" && m.Sa < 0 && m.Sb < 0) {
@@ -346,6 +351,8 @@ var opTable = map[string][][2]string{
 		{"unser", "str_over"}, {"unser", "list_over"}},
 	"units0": {{"unser", "str_ok"}, {"unser", "str_bad"}, {"unser", "num"}, {"fmt", "num"}, {"ser", "num"},
 		{"unser", "str_over"}, {"unser", "list_over"}},
+	"anylist": {{"unser", "list_mixed"}, {"valid", "list_mixed"}, {"ser", "list_mixed"}, {"unser", "list_bad"},
+		{"valid", "list_bad"}, {"unser", "map_list"}},
 	"disabled":  {{"unser", "uses_disabled"}, {"compat", "uses_disabled"}, {"unser", "keeps"}},
 	"objmap":    {{"unser", "rand"}, {"unser", "rand"}, {"unser", "bad"}, {"valid", "rand"}, {"ser", "rand"}},
 	"objstruct": {{"unser", "rand"}, {"unser", "rand"}, {"unser", "rand"}, {"unser", "bad"}, {"ser", "full"}, {"valid", "full"}},
@@ -438,6 +445,8 @@ func runRandom(c caseT) (r resT) {
 				if op == "unsermid" {
 					m.N = -1
 				}
+			case tok == "list_mixed" || tok == "list_bad" || tok == "map_list":
+				m = flat{1, -1, -1, -1}
 			case tok == "member_a_bad":
 				m = flat{100, 1, -1, -1}
 			case tok == "dep":
